@@ -14,14 +14,14 @@ def seeds_table():
     head = "| seed | change | needs to manifest | caught by | first run | confirmed |\n|---|---|---|---|---|---|\n"
     # first-run statistics per round (a seed counts as caught only if the check of ITS OWN property named it when it arrived)
     import collections
-    stats = {i: collections.Counter() for i in range(1, 8)}
+    stats = collections.defaultdict(collections.Counter)
     for name in sorted(os.listdir(f"{V}/seeded")):
         mp = f"{V}/seeded/{name}/meta.json"
         if os.path.exists(mp):
             m = json.load(open(mp))
-            stats[7 if "-r7-" in name else 6 if "-r6-" in name else 5 if "-r5-" in name else 4 if "-r4-" in name else 3 if "-r3-" in name else 2 if "-r2-" in name else 1][(name.split("-")[0], m.get("detection"))] += 1
+            stats[int(re.search(r"-r(\d+)-", name).group(1)) if re.search(r"-r(\d+)-", name) else 1][(name.split("-")[0], m.get("detection"))] += 1
     lines = []
-    for rnd in range(1, 8):
+    for rnd in sorted(stats):
         if not stats[rnd]:
             continue
         c = stats[rnd]
